@@ -1,8 +1,10 @@
 package c18
 
 import (
+	"crypto/elliptic"
 	"encoding/binary"
 	"fmt"
+	"sort"
 	"testing"
 
 	"github.com/markkurossi/mpc/sha2pc"
@@ -24,8 +26,8 @@ type RejCase struct {
 	Curve2 string `json:"curve2,omitempty"`
 	Seed2  uint64 `json:"seed2,omitempty"`
 	Delta  uint64 `json:"delta,omitempty"` // xor-ed into the session id, != 0
-	N      int    `json:"n,omitempty"`     // bytes removed / appended
-	Fill   int    `json:"fill,omitempty"`  // appended byte value, -1 = DRBG
+	N      int    `json:"n,omitempty"`     // bytes removed / appended / kept (prefix modes)
+	Fill   int    `json:"fill,omitempty"`  // appended byte value, -1 = DRBG; prefix: see prefixFills
 	Magic  string `json:"magic,omitempty"` // replacement for the first two bytes
 }
 
@@ -33,7 +35,93 @@ func init() { ev.Register("reject", runReject) }
 
 var rejModes = []string{
 	"sid-struct", "sid-bytes", "other-run", "cross-curve-decode", "cross-curve-round",
-	"trunc", "extend", "magic", "wrong-kind", "tiny",
+	"trunc", "extend", "magic", "wrong-kind", "tiny", "prefix", "inner-prefix",
+}
+
+// Content of a "prefix" input of N bytes: the first N bytes of the honest
+// encoding (fillHonest), the honest magic followed by zeros / 0xff bytes, or
+// zeros only.
+const (
+	fillHonest  = -2
+	fillAllZero = -3
+)
+
+var prefixFills = []int{fillHonest, 0, 0xff, fillAllZero}
+
+// prefixLengths are the lengths below the documented size that are always
+// tried for a decoder: 0..4, the end of the fixed header (magic 2 + session id
+// 8) and its neighbours, every border of a documented section and of its first
+// and last element with the neighbours, and one and two bytes short.
+func prefixLengths(kind string, c elliptic.Curve) []int {
+	want := wantLen(kind, c)
+	set := map[int]bool{}
+	add := func(ks ...int) {
+		for _, k := range ks {
+			if k >= 0 && k < want {
+				set[k] = true
+			}
+		}
+	}
+	add(0, 1, 2, 3, 4, 9, 10, 11, 12, want-2, want-1)
+	for _, r := range layout(kind, c) {
+		add(r.off-1, r.off, r.off+1)
+		if r.unit > 0 {
+			add(r.off+r.unit-1, r.off+r.unit, r.off+r.unit+1)
+			last := r.off + r.len - r.unit
+			add(last-1, last, last+1)
+		}
+	}
+	var res []int
+	for k := range set {
+		res = append(res, k)
+	}
+	sort.Ints(res)
+	return res
+}
+
+// innerStart returns the offset of the first byte after the length prefix at
+// offset 10 (the session chunk of gs/es, the curve name chunk of r1/r2) and
+// the documented length of that chunk.
+func innerStart(kind string, c elliptic.Curve) (start, length int) {
+	for _, r := range layout(kind, c) {
+		if r.name == "chunklen" {
+			return r.off + r.len, wantLen(kind, c) - r.off - r.len
+		}
+		if r.name == "namelen" {
+			return r.off + r.len, len(c.Params().Name)
+		}
+	}
+	return 0, 0
+}
+
+// innerLengths: lengths of a chunk's content that are always tried with a
+// consistent length prefix (sessions: the whole body is the chunk, so the
+// sections of the body give the borders; r1/r2: the curve name).
+func innerLengths(kind string, c elliptic.Curve) []int {
+	start, length := innerStart(kind, c)
+	if length == 0 {
+		return nil
+	}
+	set := map[int]bool{}
+	add := func(ks ...int) {
+		for _, k := range ks {
+			if k >= 0 && k < length {
+				set[k] = true
+			}
+		}
+	}
+	add(0, 1, 2, 3, length-2, length-1)
+	for _, r := range layout(kind, c) {
+		if r.off >= start && r.off-start < length {
+			add(r.off-start-1, r.off-start, r.off-start+1)
+		}
+	}
+	var res []int
+	for k := range set {
+		res = append(res, k)
+	}
+	sort.Ints(res)
+	return res
 }
 
 func drawDelta(t *rapid.T) uint64 {
@@ -134,6 +222,15 @@ func genRejectCase(t *rapid.T) RejCase {
 	case "tiny":
 		cs.Kind = pick(t, all, "kind")
 		cs.N = rapid.IntRange(0, 14).Draw(t, "len")
+	case "prefix":
+		cs.Kind = pick(t, all, "kind")
+		ls := prefixLengths(cs.Kind, curveByName(cs.Curve))
+		cs.N = ls[drawUniform(t, len(ls), "len")]
+		cs.Fill = prefixFills[drawUniform(t, len(prefixFills), "fill")]
+	case "inner-prefix":
+		cs.Kind = pick(t, []string{"gs", "es", "gs", "es", "r1", "r2"}, "kind")
+		ls := innerLengths(cs.Kind, curveByName(cs.Curve))
+		cs.N = ls[drawUniform(t, len(ls), "len")]
 	}
 	return cs
 }
@@ -149,7 +246,7 @@ func mustReject(kind string, cs RejCase, data []byte, why string) *ev.Outcome {
 	if err == nil {
 		sig := "decode/" + kind + "/" + cs.Mode + "-accepted"
 		switch cs.Mode {
-		case "trunc", "tiny":
+		case "trunc", "tiny", "prefix", "inner-prefix":
 			sig = "decode/" + kind + "/short-input-accepted"
 		case "extend":
 			sig = "decode/" + kind + "/trailing-bytes-accepted"
@@ -403,10 +500,116 @@ func runReject(cs RejCase) ev.Outcome {
 			return *o
 		}
 		return ev.OK(true, classes...)
+
+	case "prefix":
+		enc := base.enc[cs.Kind]
+		if cs.N < 0 || cs.N >= len(enc) {
+			return ev.Outcome{Skip: "n out of range"}
+		}
+		data := make([]byte, cs.N) // capacity == length
+		what := "honest bytes"
+		switch {
+		case cs.Fill == fillHonest:
+			copy(data, enc)
+		case cs.Fill == fillAllZero:
+			what = "zero bytes"
+		case cs.Fill >= 0 && cs.Fill <= 0xff:
+			for i := range data {
+				data[i] = byte(cs.Fill)
+			}
+			copy(data, enc[:2])
+			what = fmt.Sprintf("honest magic, then bytes %#02x", cs.Fill)
+		default:
+			return ev.Outcome{Skip: "bad fill"}
+		}
+		if o := mustReject(cs.Kind, cs, data, fmt.Sprintf("%d-byte input (%s) for the %s decoder, documented size %d",
+			cs.N, what, cs.Kind, len(enc))); o != nil {
+			return *o
+		}
+		classes = append(classes, lenClass(cs.N, len(enc)), fmt.Sprintf("prefix-fill=%d", cs.Fill))
+		return ev.OK(true, classes...)
+
+	case "inner-prefix":
+		enc := base.enc[cs.Kind]
+		start, length := innerStart(cs.Kind, c)
+		if length == 0 || cs.N < 0 || cs.N >= length {
+			return ev.Outcome{Skip: "n out of range"}
+		}
+		var tmp [binary.MaxVarintLen64]byte
+		vl := binary.PutUvarint(tmp[:], uint64(cs.N))
+		data := append([]byte{}, enc[:10]...)
+		data = append(data, tmp[:vl]...)
+		data = append(data, enc[start:start+cs.N]...)
+		data = append(data, enc[start+length:]...) // r1/r2: what follows the name
+		if o := mustReject(cs.Kind, cs, data, fmt.Sprintf(
+			"honest %s encoding whose length-prefixed chunk at offset 10 is cut to its first %d of %d bytes (prefix consistent)",
+			cs.Kind, cs.N, length)); o != nil {
+			return *o
+		}
+		classes = append(classes, "inner-"+lenClass(cs.N, length))
+		return ev.OK(true, classes...)
 	}
 	return ev.Outcome{Skip: "unknown mode"}
 }
 
+func lenClass(k, full int) string {
+	switch {
+	case k <= 3:
+		return fmt.Sprintf("len=%d", k)
+	case k == full-1:
+		return "len=one-byte-short"
+	case k <= 12:
+		return "len=4..12"
+	}
+	return "len=section-border"
+}
+
 func TestReject(t *testing.T) {
 	ev.Check(t, ev.Get(prop), "reject", genRejectCase, runReject)
+}
+
+// TestShortInputs enumerates, for every decoder and curve, the inputs that
+// must always be tried (not only drawn): every length of prefixLengths in all
+// contents of prefixFills (lengths above 12: honest bytes only), every chunk
+// content length of innerLengths with a consistent length prefix, one byte
+// appended, and the empty input.  All inputs are exact-capacity allocations
+// (see safeDecode).  Round3 has no curve parameter: P-256 only.
+func TestShortInputs(t *testing.T) {
+	col := ev.Get(prop)
+	shard, nshards := ev.Shard()
+	idx := 0
+	n := 0
+	ev.Each(t, col, "reject", func(yield func(RejCase) bool) {
+		emit := func(cs RejCase) {
+			idx++
+			if idx%nshards == shard {
+				n++
+				yield(cs)
+			}
+		}
+		for _, curve := range []string{"P-256", "P-224", "P-384", "P-521"} {
+			c := curveByName(curve)
+			for _, kind := range kinds {
+				if kind == "r3" && curve != "P-256" {
+					continue
+				}
+				for _, k := range prefixLengths(kind, c) {
+					for _, fill := range prefixFills {
+						if fill != fillHonest && k > 12 {
+							continue
+						}
+						emit(RejCase{Mode: "prefix", Kind: kind, Curve: curve, N: k, Fill: fill})
+					}
+				}
+				for _, k := range innerLengths(kind, c) {
+					emit(RejCase{Mode: "inner-prefix", Kind: kind, Curve: curve, N: k})
+				}
+				for _, fill := range []int{0, 0xff} {
+					emit(RejCase{Mode: "extend", Kind: kind, Curve: curve, N: 1, Fill: fill})
+				}
+			}
+		}
+	}, runReject)
+	col.Count("short-inputs-enumerated", n)
+	col.Note("short-inputs: enumerated for every decoder x curve: lengths 0-4, 9-12, section borders +-1, one/two bytes short (honest bytes; up to 12 bytes also magic+zeros, magic+0xff, zeros), chunk contents cut with a consistent length prefix, one byte appended")
 }
